@@ -127,6 +127,7 @@ pub fn cmd_e3(args: &Args) -> i32 {
     let seq_only = args.flag("seq-only");
     let big_n = args.u64("big-n", 4000) as usize;
     let mut big_cases = 0u64;
+    let mut noise_cases = 0u64;
     let mut two_caller_evals = 0u64;
     let _ = std::fs::create_dir_all(&out);
     let t0 = Instant::now();
@@ -142,6 +143,15 @@ pub fn cmd_e3(args: &Args) -> i32 {
         let idx = start + k * stride;
         let base = case_for(seed, idx, max_n, big_n);
         cases += 1;
+        // two cases in three run with noise at the basic-block guards of the library: a yield, a
+        // short spin or a short sleep at rarely executed sites and now and then anywhere, from a
+        // per-thread PRNG. It widens the race windows of the real threads (uncontrolled, as all of E3).
+        let noise = mix(seed, idx, 0x401) % 3 != 0;
+        if noise {
+            noise_cases += 1;
+            bbguard::set_noise_seed(mix(seed, idx, 0x4015E));
+        }
+        bbguard::set_mode(if noise { bbguard::MODE_NOISE } else { bbguard::MODE_OFF });
         let _ = std::fs::write(format!("{}/e3_shard_{}.progress", out, shard), format!("{}\n", idx));
         // a long-lived process calls the library with related inputs on the same
         // worker threads: base, a derived input, base again
@@ -168,6 +178,7 @@ pub fn cmd_e3(args: &Args) -> i32 {
             if seq_only {
                 continue;
             }
+            bbguard::reset_hits();
             // two simultaneous callers (global pool, and two pools of 4)
             if step == 0 {
                 for &t in &[0usize, 4] {
@@ -243,6 +254,9 @@ pub fn cmd_e3(args: &Args) -> i32 {
         .set("global_pool_threads", J::u(rayon::current_num_threads() as u64))
         .set("cases", J::u(cases))
         .set("big_cases", J::u(big_cases))
+        .set("noise_cases", J::u(noise_cases))
+        .set("noise_events", J::u(bbguard::counters().2))
+        .set("guard_sites", J::u(bbguard::sites() as u64))
         .set("two_caller_evaluations", J::u(two_caller_evals))
         .set("evaluations", J::u(evals))
         .set(
@@ -276,6 +290,10 @@ pub fn replay(j: &J, path: &str, args: &Args) -> i32 {
     let two = j.get("two_callers").and_then(|b| b.as_bool()).unwrap_or(false);
     let r = s_seq::run_op(&case, op);
     for i in 0..reps {
+        // alternate plain and noisy attempts
+        bbguard::set_noise_seed(mix(i, 0xE3, 0x4015E));
+        bbguard::set_mode(if i % 2 == 1 { bbguard::MODE_NOISE } else { bbguard::MODE_OFF });
+        bbguard::reset_hits();
         let o = if two {
             let (a, b) = run_two_callers(&case, op, threads);
             if a.first_diff(&r).is_some() {
